@@ -287,6 +287,9 @@ func assemble(r *vgen.Rand, segs []segw, cur int, curHop int, c *Config, srcLoca
 	return d
 }
 
+// AttackKinds are packets that must NOT be accepted (transit spoofing from inside the AS).
+var AttackKinds = []string{"spoof-sameseg", "spoof-afterxover"}
+
 // Kinds of positions GenValid produces.
 var Kinds = []string{"first-hop", "transit", "xover", "peer-out", "peer-in", "inbound"}
 
@@ -566,6 +569,48 @@ func genKind(r *vgen.Rand, c *Config, nowSec int64, kind string) *Scenario {
 		sc.Desc = assemble(r, segs, len(segs)-1, n-1, c, false, true)
 		sc.Local = []LocalHop{{Idx: int(sc.Desc.CurrHF), Beta: ch.Beta[li], Fold: !consDir}}
 		sc.Ing = Ingress{Kind: IngExt, ID: int(in.ID)}
+	case "spoof-sameseg", "spoof-afterxover":
+		// Transit spoofing from inside the AS: a genuine hop field of the local AS that starts
+		// (or, against construction direction, ends) a segment, i.e. whose ingress-side
+		// interface is 0, placed at a position that is NOT the first hop of the path, sent over
+		// the internal network (or a sibling link) with a foreign SrcIA.
+		lt := vgen.Pick(r, LTCore, LTChild)
+		if !consDir {
+			lt = vgen.Pick(r, LTCore, LTParent)
+		}
+		eg := c.Pick(r, lt, 0, false, 0)
+		if eg == nil {
+			return nil
+		}
+		n := r.Range(2, 4)
+		li := 0
+		local := ASHop{Key: c.Key, In: 0, Eg: eg.ID, Exp: exp}
+		if !consDir {
+			li = n - 1
+			local = ASHop{Key: c.Key, In: eg.ID, Eg: 0, Exp: exp}
+		}
+		ch := chainAround(r, ts, n, li, local)
+		inf, hops := ch.Wire(0, n-1, consDir, 0)
+		garbage := func(zero bool) Hop {
+			h := Hop{ConsIngress: randIf(r), ConsEgress: randIf(r), ExpTime: randExp(r)}
+			if zero {
+				h.ConsIngress, h.ConsEgress = 0, 0
+			}
+			copy(h.Mac[:], r.Bytes(6))
+			return h
+		}
+		if kind == "spoof-sameseg" {
+			hops = append([]Hop{garbage(false)}, hops...)
+			sc.Desc = assemble(r, []segw{{inf, hops}}, 0, 1, c, false, false)
+		} else {
+			pre := segw{Info{ConsDir: r.Bool(), SegID: uint16(r.U64()), Timestamp: ts}, []Hop{garbage(false), garbage(true)}}
+			sc.Desc = assemble(r, []segw{pre, {inf, hops}}, 1, 0, c, false, false)
+		}
+		sc.Local = []LocalHop{{Idx: int(sc.Desc.CurrHF), Beta: ch.Beta[li]}}
+		sc.Ing = Ingress{Kind: IngInt}
+		if r.Chance(1, 3) {
+			sc.Ing = Ingress{Kind: IngSib, ID: r.Range(1, 2)}
+		}
 	default:
 		panic("rtgen: unknown kind " + kind)
 	}
@@ -605,6 +650,12 @@ func Mutate(r *vgen.Rand, sc *Scenario, c *Config, nowSec int64, what string) st
 	}
 	d := sc.Desc
 	ci, ch := int(d.CurrINF), int(d.CurrHF)
+	if ci >= len(d.Infos) {
+		ci = len(d.Infos) - 1
+	}
+	if ch >= len(d.Hops) {
+		ch = len(d.Hops) - 1
+	}
 	inf := &d.Infos[ci]
 	hop := &d.Hops[ch]
 	otherIf := func(not uint16) uint16 {
